@@ -310,13 +310,52 @@ PROPS["C21"] = {
     "not_covered": ["32-bit chunked (discontiguous) update path", "extreme_assertions sanity mirror"],
 }
 
+PROPS["C31"] = {
+    "level": "proof",
+    "anchors": [("addr_to_index", "src/policy/sft_map.rs"), ("index_to_space_range", "src/policy/sft_map.rs"), ("has_sft_entry", "src/policy/sft_map.rs"),
+                ("space_index", "src/util/heap/layout/map64.rs"), ("get_descriptor_for_address", "src/util/heap/layout/map64.rs")],
+    "kani": {"prefix": "c31_", "files": ["c31_sft.rs", "layout.rs"], "timeout_quick": 900, "timeout_thorough": 2400},
+    "functions": ["SFTSpaceMap::{new, addr_to_index, index_to_space_range, has_sft_entry}", "Map64::{new, space_index, is_space_start, get_descriptor_for_address}",
+                  "VMLayout::{address_mask, space_shift_64, space_mask_64, new_64bit}"],
+    "explanation": "Index arithmetic only (table contents are whole-system and not claimed). For every usize address: the SFT space-map slot index is "
+                   "inside the table built by the real SFTSpaceMap::new() (so get_unchecked is in bounds); has_sft_entry holds exactly for addresses inside "
+                   "spaces 1..15; an address inside space i resolves to slot i, and Map64::space_index agrees; addresses below the first space resolve to slot 0; "
+                   "Map64::get_descriptor_for_address never indexes outside its descriptor table. Proved for every layout satisfying VMLayout::validate "
+                   "(contiguous) and for the real default 64-bit layout. Loop-free apart from the table constructors (32 / 16 iterations, code constants).",
+    "bounds": ["none (full-domain symbolic address; constructor loops bounded by code constants 32 and 16)"],
+    "assumptions": ["layouts: those accepted by VMLayout::validate with force_use_contiguous_spaces, heap inside the 47-bit address space"],
+    "trusted_base": ["kani::stub of vm_layout() by a symbolic VMLayout (any-layout harnesses); the default-layout harnesses use the real static"],
+    "not_covered": ["SFT table contents / which space owns an address / is_in_mmtk_spaces (whole-system)", "SFTSparseChunkMap and SFTDenseChunkMap (32-bit / malloc configurations)",
+                    "Map32", "SFTRefStorage load/store (128-bit atomics)"],
+}
+
+PROPS["C40"] = {
+    "level": "other",
+    "technique": "Kani bounded proof harness (input length <= 7) over the real RevisitableGroupBy / RevisitableGroup iterators (CBMC); bounded stand-in, not counted as proved",
+    "anchors": [("RevisitableGroupBy", "src/util/rust_util/rev_group.rs"), ("RevisitableGroup", "src/util/rust_util/rev_group.rs"),
+                ("revisitable_group_by", "src/util/rust_util/rev_group.rs")],
+    "kani": {"prefix": "c40_", "files": ["c40_revgroup.rs"], "timeout_quick": 900, "timeout_thorough": 2400},
+    "functions": ["RevisitableGroupByForIterator::revisitable_group_by", "<RevisitableGroupBy as Iterator>::next", "<RevisitableGroup as Iterator>::next "
+                  "(instantiated on slice::Iter<u8> and on Copied<Flatten<Copied<slice::Iter<&[u8]>>>>)"],
+    "explanation": "BOUNDED (input length <= 7), complete within the bound: the real iterators are run over a slice of symbolic bytes of symbolic "
+                   "length with key function x & m for a symbolic mask m (so every partition shape of <= 7 items into runs occurs), and over two "
+                   "flattened slices with a symbolic cut. Checked: the items yielded by the groups, in order, are exactly the input; each item's key equals "
+                   "its group's reported key; each group is non-empty; reported len == number of items the group yields; adjacent groups have different "
+                   "keys; empty input yields no group. Generic `Iterator + Clone` code with FnMut closures is outside what Verus accepts for extraction, so the "
+                   "length bound remains and the level is 'other'.",
+    "bounds": ["input length <= 7 (loops unwound to 10, unwinding assertions on)", "item type u8, key type u8 (the code is parametric in both)"],
+    "assumptions": ["key functions are pure (the harness' key is x & m)"],
+    "trusted_base": ["core::slice::Iter / Flatten / Copied as compiled by Kani"],
+    "not_covered": ["inputs longer than 7 items", "impure key functions"],
+}
+
 PROPS["C22"] = {
     "level": "other",
     "anchors": [("find_prev_non_zero_value", "src/util/metadata/side_metadata/global.rs"), ("find_next_non_zero_value", "src/util/metadata/side_metadata/global.rs"),
                 ("scan_non_zero_values", "src/util/metadata/side_metadata/global.rs"),
                 ("find_last_non_zero_bit_in_metadata_bytes", "src/util/metadata/side_metadata/helpers.rs"),
                 ("scan_non_zero_bits_in_metadata_bytes", "src/util/metadata/side_metadata/helpers.rs")],
-    "kani": {"prefix": "c22_", "files": ["c22_search.rs", "side.rs", "mmapper.rs"], "timeout_quick": 1200, "timeout_thorough": 3600},
+    "kani": {"prefix": "c22x?_", "files": ["c22_search.rs", "side.rs", "mmapper.rs"], "timeout_quick": 1200, "timeout_thorough": 3600},
     "functions": [],
     "explanation": "x",
 }
